@@ -12,10 +12,11 @@ from vf.driver import Harness
 PROPERTY = "C11"
 NOW = "<now-token>"
 NLEAF = 3
-TAGGER = [(("x",), ()), ((), ("t",)), (("u",), ("t",))]
+# the third variant adds and discards an overlapping set (discard wins): on events with and without tags
+TAGGER = [(("x",), ()), ((), ("t",)), (("u", "t"), ("t",))]
 NOPS = 3 + 1 + 3 + 9
 OPNAMES = ["Sink", "FailFast", "ToQueue('0')", "Timestamping"] + ["Copy/%d" % k for k in (1, 2, 3)] + \
-          ["Tagger%s/%d" % (v, k) for v in ("+x", "-t", "+u-t") for k in (1, 2, 3)]
+          ["Tagger%s/%d" % (v, k) for v in ("+x", "-t", "+u,t-t") for k in (1, 2, 3)]
 
 
 class FakeDatetime:
@@ -212,7 +213,7 @@ def run_tree(root, evspecs):
 
 
 def h_tree(o0: int, o1: int, o2: int, o3: int, o4: int, budget: int, depth: int,
-           si: int, ti: int, has_ts: bool, ri: int, fb: bytes, runnable: bool, eof: bool) -> bool:
+           si: int, ti: int, has_ts: bool, ri: int, fb: bytes, runnable: bool = True, eof: bool = False) -> bool:
     """
     pre: 0 <= o0 < 16 and 0 <= o1 < 16 and 0 <= o2 < 16 and 0 <= o3 < 16 and 0 <= o4 < 16
     pre: 1 <= budget <= 5 and 0 <= depth <= 3 and 0 <= si < 4 and 0 <= ti < 5 and 0 <= ri < 2 and len(fb) <= 1
@@ -300,7 +301,7 @@ def _describe_seq(o0, o1, o2, o3, budget, depth, e0, e1, e2, n):
 HARNESSES = [
     Harness("tree", h_tree, _tree_shards,
             bounds={"quick": "every decorator tree with <= 3 nodes (depth <= 2) over {recording sink, StreamFailFast, StreamToQueue('0'), "
-                             "TimestampingStreamResult, CopyStreamResult with 1..3 targets, StreamTagger (+x | -t | +u-t) with 1..3 targets} "
+                             "TimestampingStreamResult, CopyStreamResult with 1..3 targets, StreamTagger (+x | -t | +{u,t} -t, i.e. overlapping add/discard) with 1..3 targets} "
                              "x one status event: status {None, fail, success, uxsuccess} x tags {None, set{t}, frozenset{t}, set(), "
                              "set{x,t}} x timestamp supplied or not x route code {None, 1} x a symbolic file chunk x symbolic runnable / eof flags; clock stubbed",
                     "thorough": "<= 4 nodes (depth <= 3)"},
